@@ -38,14 +38,19 @@ theorem index_exits_unreachable (n : Vec3 ℝ) (hx : 0 < n.x) (hy : 0 < n.y) (hz
   simp [pickInvSq] at hp
 
 /-- T1c (refinement). Over ℝ the faithful form of `index_along` — both the repaired code and the
-pinned tree's variant that returns 0 for `Roots::No` — equals the closed-form spec. -/
+pinned tree's variant that returns 0 for `Roots::No` — equals the closed-form spec, and so does the\nclamped evaluation of the spec that the driver runs in Float. -/
 theorem indexAlong_refines_spec (n : Vec3 ℝ) (hx : 0 < n.x) (hy : 0 < n.y) (hz : 0 < n.z)
     (θ φ : ℝ) (d : Vec3 ℝ) (hd : d.normSq = 1) (pol : Pol) :
     indexAlong n θ φ d pol = indexAlongSpec n θ φ d pol ∧
-    indexAlongPinned n θ φ d pol = indexAlongSpec n θ φ d pol := by
+    indexAlongPinned n θ φ d pol = indexAlongSpec n θ φ d pol ∧
+    indexAlongSpecClamped n θ φ d pol = indexAlongSpec n θ φ d pol := by
   have hs : (toCrystalFrame θ φ d).normSq = 1 := by rw [toCrystalFrame_normSq, hd]
-  constructor
+  refine ⟨?_, ?_, ?_⟩
   · exact indexFromFrame_eq_spec n _ hx hy hz hs pol
+  swap
+  · have h := frameData n _ hx hy hz hs
+    simp only [indexAlongSpecClamped, indexAlongSpec, indexFromFrameSpec]
+    rw [specInvSqClamped_eq _ _ h.disc_nonneg]
   · have h := frameData n _ hx hy hz hs
     simp only [indexAlongPinned, indexAlongSpec, indexFromFrameSpec]
     rw [pick_eq_spec _ _ h.disc_nonneg]
